@@ -172,13 +172,21 @@ def tlaps(module, needs=(), subst=None, timeout=900):
                 raise MachineryError("negative control: %r not found in %s.tla" % (subst[0], module))
             with open(path, "w") as fh:
                 fh.write(text.replace(subst[0], subst[1]))
-        try:
-            p = subprocess.run(["tlapm", "--threads", "4", module + ".tla"], cwd=d, stdout=subprocess.PIPE, stderr=subprocess.STDOUT, text=True,
-                               timeout=timeout)
-        except subprocess.TimeoutExpired:
-            raise MachineryError("tlapm timed out on %s.tla" % module)
-        m = re.search(r"All (\d+) obligations? proved", p.stdout)
-        return (int(m.group(1)) if m else None), p.stdout
+        # the back-end provers work under time-outs of a few seconds each: on a loaded machine an obligation can time out
+        # although it is provable, so a failed run is repeated with the time-outs stretched (proved obligations are kept in
+        # the fingerprint cache of the scratch directory).  A negative control (subst) is run once, with generous time-outs.
+        out = ""
+        for stretch in ((6,) if subst else (2, 8, 24)):
+            try:
+                p = subprocess.run(["tlapm", "--threads", "4", "--stretch", str(stretch), module + ".tla"], cwd=d, stdout=subprocess.PIPE,
+                                   stderr=subprocess.STDOUT, text=True, timeout=timeout)
+            except subprocess.TimeoutExpired:
+                raise MachineryError("tlapm timed out on %s.tla" % module)
+            out = p.stdout
+            m = re.search(r"All (\d+) obligations? proved", out)
+            if m:
+                return int(m.group(1)), out
+        return None, out
     finally:
         cleanup(d)
 
